@@ -122,6 +122,12 @@ class SemantivaOrchestrator(ABC):
         self._current_run_metadata = dict(pending_meta or {})
 
         canonical = canonical_spec
+        if canonical is not None:
+            # Work on a copy: the spec is enriched below with preprocessor metadata,
+            # and the caller's (Pipeline-owned) canonical spec must keep hashing to
+            # the same pipeline_id on every run.
+            canonical = dict(canonical)
+            canonical["nodes"] = [dict(n) for n in canonical.get("nodes", [])]
         resolved_spec: Sequence[dict[str, Any]] = pipeline_spec
         if canonical is None:
             canonical, resolved_spec = build_canonical_spec(pipeline_spec)
